@@ -1156,6 +1156,9 @@ func (fi *funcInfo) factsAt(b *ssa.BasicBlock, at ssa.Instruction) []Lin {
 }
 
 func (fi *funcInfo) condFacts(c ssa.Value, truth bool) []Lin {
+	if gf := fi.guardFacts(c, truth); len(gf) > 0 {
+		return gf
+	}
 	switch x := c.(type) {
 	case *ssa.UnOp:
 		if x.Op == token.NOT {
@@ -1388,4 +1391,48 @@ func unsignedBits(v ssa.Value) (int, bool) {
 		return bf, true
 	}
 	return 0, false
+}
+
+// guardFacts: the condition says that the error a module function returned is nil: what that
+// function has checked about its integer arguments then holds (guardSummary).
+func (fi *funcInfo) guardFacts(c ssa.Value, truth bool) []Lin {
+	bo, ok := c.(*ssa.BinOp)
+	if !ok || (bo.Op != token.EQL && bo.Op != token.NEQ) {
+		return nil
+	}
+	var ev ssa.Value
+	switch {
+	case isNilConst(bo.Y):
+		ev = bo.X
+	case isNilConst(bo.X):
+		ev = bo.Y
+	default:
+		return nil
+	}
+	if (bo.Op == token.EQL) != truth {
+		return nil // the error is not nil on this edge
+	}
+	var call *ssa.Call
+	switch x := ev.(type) {
+	case *ssa.Call:
+		call = x
+	case *ssa.Extract:
+		if cl, ok := x.Tuple.(*ssa.Call); ok && x.Index == cl.Type().(*types.Tuple).Len()-1 {
+			call = cl
+		}
+	}
+	if call == nil {
+		return nil
+	}
+	sc := call.Call.StaticCallee()
+	if sc == nil || !inMod(sc) {
+		return nil
+	}
+	var out []Lin
+	for _, gf := range guardSummary(sc) {
+		if l, ok := gf(fi, call); ok {
+			out = append(out, l)
+		}
+	}
+	return out
 }
